@@ -22,6 +22,8 @@ import (
 	"go.etcd.io/etcd/api/v3/mvccpb"
 	clientv3 "go.etcd.io/etcd/client/v3"
 
+	"github.com/projecteru2/core/engine"
+	enginefactory "github.com/projecteru2/core/engine/factory"
 	"github.com/projecteru2/core/store"
 	"github.com/projecteru2/core/store/etcdv3/meta"
 	"github.com/projecteru2/core/types"
@@ -50,6 +52,30 @@ type vKV struct {
 	records []*mvccpb.KeyValue // the pod's node records, in the store's order
 	status  map[string]int     // node -> 0: no status key, 1: live status key, 2: the read fails
 	reads   map[string]int
+	podKeys map[string]bool // pod records
+}
+
+func (k *vKV) Delete(_ context.Context, key string, _ ...clientv3.OpOption) (*clientv3.DeleteResponse, error) {
+	k.mu.Lock()
+	defer k.mu.Unlock()
+	if k.podKeys[key] {
+		delete(k.podKeys, key)
+		return &clientv3.DeleteResponse{Deleted: 1}, nil
+	}
+	return &clientv3.DeleteResponse{}, nil
+}
+
+var vErrNoEngine = errors.New("verif: engine not reachable")
+
+// Under gosym no engine is reachable (RemovePod only counts the nodes); natively
+// the real factory serves the mock:// endpoints.
+//
+//verif:stub github.com/projecteru2/core/engine/factory.GetEngineFromCache
+func vGetEngineFromCache(_ context.Context, _, _, _, _ string) engine.API { return nil }
+
+//verif:stub github.com/projecteru2/core/engine/factory.GetEngine
+func vGetEngine(_ context.Context, _ types.Config, _, _, _, _, _ string) (engine.API, error) {
+	return nil, vErrNoEngine
 }
 
 func (k *vKV) Get(_ context.Context, key string, _ ...clientv3.OpOption) (*clientv3.GetResponse, error) {
@@ -166,4 +192,50 @@ func VerifGetNodes(arg string) {
 	vAssert("C21/store-nothing-outside-the-pod", len(got) <= n)
 }
 
-func init() { vRegisterP("VerifGetNodes", VerifGetNodes) }
+// VerifRemovePod (C22, store half, etcd backend): a pod that still has nodes -
+// whatever their state: down, bypassed, unreachable - is never removed; an empty
+// pod is.  The real Mercury.RemovePod (GetNodesByPod with all nodes requested,
+// doGetNodes, makeClient, the delete) runs over the model meta.KV.
+func VerifRemovePod(arg string) {
+	n := vParam(arg, "n", 2)
+	names := []string{"na", "nb", "nc"}[:n]
+	kv := &vKV{pod: "p", status: map[string]int{}, reads: map[string]int{}, podKeys: map[string]bool{}}
+	podExists := vBool("pod_record_exists")
+	podKey := fmt.Sprintf(podInfoKey, "p")
+	if podExists {
+		kv.podKeys[podKey] = true
+	}
+	recorded := 0
+	for i, name := range names {
+		if !vBool(fmt.Sprintf("node%d_recorded", i)) {
+			continue
+		}
+		recorded++
+		node := &types.Node{NodeMeta: types.NodeMeta{Name: name, Podname: "p", Endpoint: "mock://" + name}, Bypass: vBool(fmt.Sprintf("node%d_bypass", i)), Test: vBool(fmt.Sprintf("node%d_test", i))}
+		b, err := json.Marshal(node)
+		vAssume(err == nil)
+		kv.records = append(kv.records, &mvccpb.KeyValue{Key: []byte(fmt.Sprintf(nodePodKey, "p", name)), Value: b})
+		kv.status[name] = vChoose(fmt.Sprintf("node%d_status_key", i), 3)
+	}
+	pool, _ := utils.NewPool(8)
+	m := &Mercury{KV: kv, pool: pool}
+	if vNativeRun {
+		enginefactory.InitEngineCache(context.Background(), m.config, nil)
+	}
+	err := m.RemovePod(context.Background(), "p")
+	vObserve("refused", err != nil)
+	if recorded > 0 {
+		vCover("pod-with-nodes", true)
+		vAssert("C22/pod-that-still-has-nodes-is-not-removed", err != nil && kv.podKeys[podKey] == podExists)
+	} else if podExists {
+		vCover("empty-pod-removed", true)
+		vAssert("C22/empty-pod-is-removed", err == nil && !kv.podKeys[podKey])
+	} else {
+		vAssert("C22/missing-pod-is-reported", err != nil)
+	}
+}
+
+func init() {
+	vRegisterP("VerifGetNodes", VerifGetNodes)
+	vRegisterP("VerifRemovePod", VerifRemovePod)
+}
